@@ -8,7 +8,8 @@ SAMPLE = [0, 1, 4, 23, 57, 96, 200, 300, 383]     # fixed sample of table entrie
 def entry_ob(k, name, why):
     return {'id': 'entry_%03d_%s' % (k, name), 'entry': 'h_entry_equiv', 'enforce': [], 'replace': [], 'unwind': 41 if name.startswith('exp') else 17, 'timeout': 600, 'defines': ['-DENTRY=%d' % k, '-DVERIF_ABORT_PROVE=1', '-DC01_UF_MUL=1'],
             'expect_classes': {'assertion': 2}, 'min_obligations': 2, 'abstraction_defines': ['-DC01_UF_MUL=1'],
-            'canary': name not in ('trap', 'retd', 'retid', 'retidc', 'mov_dvm', 'mov_dvm_to'),     # the reference never completes on these (Unimplemented / UNREACHABLE): nothing to compare 'checks': [], 'standard_checks': False, 'object_bits': 12, 'why': why}
+            'canary': name not in ('trap', 'retd', 'retid', 'retidc', 'mov_dvm', 'mov_dvm_to'),     # the reference never completes on these (Unimplemented / UNREACHABLE): nothing to compare
+            'checks': [], 'standard_checks': False, 'object_bits': 12, 'why': why}
 
 def dynamic_obligations(metas, tier, wd):
     import cxx2c
@@ -34,8 +35,8 @@ def dynamic_obligations(metas, tier, wd):
         why = None
         if r is None or r['sha'] != e['sha'] or r['name'] != e['name']: why = 'decode-table entry differs from the reference'
         elif gchanged: why = 'a class-scope constant differs from the reference: %s' % sorted(gchanged)[:3]
-        elif run_changed: why = 'Interpreter::Run or a function it calls directly differs from the reference'
         elif (closure(e['handler'], calls) | closure(r['handler'], rcalls)) & changed: why = 'handler closure differs from the reference: %s' % sorted((closure(e['handler'], calls) | closure(r['handler'], rcalls)) & changed)[:4]
+        elif run_changed: why = 'Interpreter::Run or a function it calls directly differs from the reference'
         if why: affected.append(k)
         if why == 'Interpreter::Run or a function it calls directly differs from the reference' and k not in SAMPLE and tier != 'thorough':
             continue          # a change confined to Run's own closure is decided by the skeleton obligation; the handlers are called directly
